@@ -9,6 +9,7 @@ Good(ev) ==
           /\ \/ ev.op = "Setup"     /\ Setup
              \/ ev.op = "WriteSds"  /\ a.k = nk + 1 /\ WriteSds(a.api, a.shape, a.type, a.scales, a.unl)
              \/ ev.op = "ListSds"   /\ ListSds(a.api)
+             \/ ev.op = "GrowSds"   /\ \E i \in 1..Len(sds) : sds[i].k = a.k /\ GrowSds(i, a.n)
              \/ ev.op = "ListSdsNc" /\ ListSdsNc
              \/ ev.op = "WriteRas"  /\ a.k = nk + 1 /\ WriteRas(a.api, a.dims, a.ncomp, a.comp, IF a.pal = 0 THEN 0 ELSE 1, a.il)
              \/ ev.op = "ListRas"   /\ ListRas(a.api)
